@@ -82,6 +82,26 @@ def run(tier, seed):
           elif k == 'add_measurement':
             clients.Trial(client, op[1]).add_measurement(vz.Measurement({svc.METRICS[i]: float(x) for i, x in op[2]}, steps=1, elapsed_secs=1.0))
             v = None
+          elif k == 'long_trial':
+            # a fresh trial with a long history of measurements, then calls that are refused on it
+            holder._default = ('deliver', [7], [], [])
+            tr_ = study.suggest(count=1, client_id='long_history_worker')[0]
+            for j_ in range(op[1]):
+              tr_.add_measurement(vz.Measurement({svc.METRICS[1]: float(j_ % 7)}, steps=j_ + 1, elapsed_secs=float(j_)))
+            tr_.complete(vz.Measurement({svc.METRICS[1]: 1.0, svc.METRICS[2]: 2.0}))
+            v = []
+            for what in ('complete', 'add_measurement', 'stop'):
+              try:
+                if what == 'complete':
+                  tr_.complete(vz.Measurement({svc.METRICS[1]: 1.0, svc.METRICS[2]: 2.0}))
+                elif what == 'add_measurement':
+                  tr_.add_measurement(vz.Measurement({svc.METRICS[1]: 3.0}, steps=1, elapsed_secs=1.0))
+                else:
+                  tr_.stop()
+                v.append((what, 'ok'))
+              except Exception as e2:  # pylint: disable=broad-except
+                v.append((what, cerr(e2)))
+            v.append(len(tr_.materialize().measurements))
           elif k == 'stop':
             v = clients.Trial(client, op[1]).stop()
           elif k == 'check_es':
@@ -150,7 +170,7 @@ def run(tier, seed):
           server._pythia_server.stop(None)
     return out
 
-  def gen_program(r):
+  def gen_program(r, force_long=False):
     prog = []
     nxt = 1
     made = [0]
@@ -219,12 +239,16 @@ def run(tier, seed):
         prog.append(prog[-1])
     if r.random() < 0.5:
       prog.insert(r.randrange(len(prog) + 1), ('lookup_missing', r.choice(['name', 'owner_and_id']), r.randrange(3)))
+    if force_long or r.random() < 0.08:
+      # a trial with a long history of measurements, then calls that are refused on it: the refusal must be the same error
+      # class everywhere however large the trial is (transports limit the size of error details)
+      prog.append(('long_trial', 260))
     return prog
 
   nprog = 40 if tier == 'quick' else 150
   cases, objs = [], []
   for pi in range(nprog):
-    prog = gen_program(r)
+    prog = gen_program(r, force_long=(pi == 0))
     url = None if r.random() < 0.5 else 'sqlite:///:memory:'
     obs = {d: run_program(d, url, prog) for d in ('local', 'grpc', 'split')}
     has_err = any(o[0] == 'err' for o in obs['local'])
